@@ -89,8 +89,10 @@ for w in WALKERS + SELECTORS + FUZZERS:
     UNITS[w['name']] = w
 
 
-def fuzz_jobs(runs, names=None):
-    return [dict(bin=f['name'], replay_bin=f['name'].replace('fuzz_', 'walk_'), runs=runs, max_len=8 + 32 * 24) for f in FUZZERS if names is None or f['name'] in names]
+def fuzz_jobs(runs, names=None, instances=3):
+    # every fuzz target runs as `instances` independent single-threaded libFuzzer processes (own seed, own corpus) that share the run budget
+    return [dict(bin=f['name'], replay_bin=f['name'].replace('fuzz_', 'walk_'), runs=runs // instances, max_len=8 + 32 * 24)
+            for f in FUZZERS if names is None or f['name'] in names for _ in range(instances)]
 UNITS['units_plan'] = unit('units_plan')
 SELECT_NAMES = [w['name'] for w in SELECTORS]
 WALKER_NAMES = [w['name'] for w in WALKERS]
